@@ -58,8 +58,21 @@ func anyRouter(*http.Request, *types.Context) bool { return true }
 // 前一个对象返回的实例将作为下一个对象的输入参数。
 func AndMatcher(m ...Matcher) Matcher {
 	return MatcherFunc(func(r *http.Request, ctx *types.Context) bool {
+		path := r.URL.Path
+		ps := make(map[string]string, ctx.Count())
+		ctx.Range(func(k, v string) { ps[k] = v })
+
 		for _, mm := range m {
-			if !mm.Match(r, ctx) {
+			if !mm.Match(r, ctx) { // 还原之前已经匹配的对象对 r 和 ctx 的修改
+				r.URL.Path = path
+				ctx.Range(func(k, _ string) {
+					if _, found := ps[k]; !found {
+						ctx.Delete(k)
+					}
+				})
+				for k, v := range ps {
+					ctx.Set(k, v)
+				}
 				return false
 			}
 		}
